@@ -152,10 +152,12 @@ def apply_op(m, op: dict) -> tuple[bool, str | None]:
 # observation of the real model, projected on the specification's Obs
 # ---------------------------------------------------------------------------------------------
 def _query(fn):
-    from mxlpy.model import CircularDependencyError, MissingDependenciesError
+    from mxlpy.model import ArityMismatchError, CircularDependencyError, MissingDependenciesError
 
     try:
         return "ok", fn()
+    except ArityMismatchError:
+        return "arity", None
     except MissingDependenciesError:
         return "missing", None
     except CircularDependencyError:
@@ -341,7 +343,10 @@ def _rand_value(rnd, names):
 
 def _rand_call(rnd, names):
     f = rnd.choice(["two", "inc", "dbl", "id", "add", "mul", "sub", "mad"])
-    return {"fn": f, "args": [rnd.choice(names) for _ in range(fnlib.ARITY[f])]}
+    k = fnlib.ARITY[f]
+    if rnd.random() < 0.04:  # one argument too many / too few: every query must then raise ArityMismatchError
+        k = k + 1 if k == 0 or rnd.random() < 0.5 else k - 1
+    return {"fn": f, "args": [rnd.choice(names) for _ in range(k)]}
 
 
 _SAME = {0: ["one", "two"], 1: ["inc", "dbl", "neg", "id"], 2: ["mul", "add", "sub"], 3: ["mad"]}
